@@ -148,6 +148,11 @@ func init() {
 			ex := fr.ex
 			c := ex.ctx
 			n := args[len(args)-1].(*smt.Term)
+			if len(args) == 2 {
+				if r, ok := args[0].(*Value); ok && r != nil {
+					ex.rt.noteAccess(fr, r, true) // method on a *rand.Rand: unsynchronised state
+				}
+			}
 			if !ex.branch(c.Cmp(smt.OpSLt, c.ConstS(w, 0), n)) {
 				ex.goPanic("invalid argument to " + name)
 			}
@@ -156,6 +161,20 @@ func init() {
 			return v
 		})
 	}
+	// rand.NewSource / rand.New: an opaque generator object with one state cell. A *rand.Rand is
+	// not safe for concurrent use: every method call on it is a plain write of that cell for the
+	// happens-before race check (the top-level functions are synchronised and touch nothing).
+	reg("math/rand.NewSource", func(fr *frame, args []Value) Value {
+		cell := new(Value)
+		*cell = Struct{fr.ex.ctx.ConstS(64, 0)}
+		pkg := fr.ex.prog.ImportedPackage("math/rand")
+		return Iface{T: types.NewPointer(pkg.Type("rngSource").Type()), V: cell}
+	})
+	reg("math/rand.New", func(fr *frame, args []Value) Value {
+		cell := new(Value)
+		*cell = Struct{fr.ex.ctx.ConstS(64, 0)}
+		return cell
+	})
 	randInt("math/rand.Intn", 64, "int")
 	randInt("math/rand.Int63n", 64, "int64")
 	randInt("(*math/rand.Rand).Intn", 64, "int")
